@@ -17,6 +17,8 @@ Not decided (numerical): finiteness, monotonicity, lower bound, 0.5 % agreement 
          right-hand side -T_old (minus q / ad in row 0),  last row Dirichlet
   R10.9  frame condition: a method that re-assigns an attribute also re-assigns, after it and by the constructor's
          formula, every attribute the constructor derives from it (the mesh is never built from a half-refreshed state)
+  R10.10 sampling: each of the three computed lists gets exactly one sample per time step, and the time march is left only
+         when the time variable reaches final_time
   R10.8  publication: lntts / g / g_bhw are the computed curves resampled on one uniform grid, g_sts interpolates them
   R10.6  outputs:  g = 2 pi k_s ((T_0 - T_init) / q - Rb*),  g_bhw = 2 pi k_s (T_wall - T_init) / q with
          T_wall the cell at bh_wall_idx,  lntts = ln(t / t_s),  t_s = H^2 / (9 alpha)
@@ -738,6 +740,35 @@ def _stencil_path(prog: Program, res: Result, env0, fi, q, eng, f):
             res.violation("R10.6", f"lntts|{got.key()[:80]}", prog.loc(fi, apps[LN].node), q, f"lntts is {got.key()[:120]} instead of ln(time / t_s)")
     else:
         raise AnalysisError(f"{q}: value appended to the list published as self.lntts not understood")
+    # ---- R10.10 one sample per time step, and the march ends only at the requested time
+    for nm_ in (LN, G, GB):
+        sites = [c_ for c_ in ast.walk(fi.node) if isinstance(c_, ast.Call) and isinstance(c_.func, ast.Attribute) and c_.func.attr in ("append", "extend", "insert") and attr_chain(c_.func.value) == nm_]
+        in_loop = [c_ for c_ in sites if any(c_ is x for x in ast.walk(loop))]
+        ok = len(sites) == 1 and len(in_loop) == 1
+        res.ob("R10.10", f"{nm_}: exactly one sample is recorded per time step", ok, prog.loc(fi, sites[-1]) if sites else prog.loc(fi, loop))
+        if not ok:
+            extra = sites[-1] if len(sites) > 1 else None
+            res.violation("R10.10", f"samples|{nm_}|{len(sites)}", prog.loc(fi, extra) if extra is not None else prog.loc(fi, loop), q,
+                          f"{nm_} is extended at {len(sites)} places: a sample that is not the solution of its own time step enters the published curve"
+                          + (f" ('{norm_stmt(extra)[:70]}')" if extra is not None else ""))
+    for br in [x for x in ast.walk(loop) if isinstance(x, (ast.Break, ast.Return))]:
+        guard = None
+        for n_ in ast.walk(loop):
+            if isinstance(n_, ast.If) and any(br is x for b_ in n_.body + n_.orelse for x in ast.walk(b_)):
+                guard = n_
+        names_ = {x.id for x in ast.walk(guard.test) if isinstance(x, ast.Name)} if guard is not None else set()
+        ok = guard is not None and TIME in names_ and "final_time" in names_ and not any(isinstance(x, ast.BoolOp) and isinstance(x.op, ast.Or) for x in ast.walk(guard.test))
+        res.ob("R10.10", f"the time march is left only when the time variable reaches final_time ({ast.unparse(guard.test)[:60] if guard is not None else 'unconditional'})", ok, prog.loc(fi, br))
+        if not ok:
+            res.violation("R10.10", f"early-exit|{ast.unparse(guard.test)[:60] if guard is not None else 'unconditional'}", prog.loc(fi, br), q,
+                          f"the time march is left under '{ast.unparse(guard.test)[:100] if guard is not None else 'no condition'}', which is not the end of the requested period: "
+                          "the curve that is published claims times the temperature field never reached")
+    if isinstance(loop, ast.While) and not (isinstance(loop.test, ast.Constant) and loop.test.value is True):
+        names_ = {x.id for x in ast.walk(loop.test) if isinstance(x, ast.Name)}
+        ok = TIME in names_ and "final_time" in names_ and not any(isinstance(x, ast.BoolOp) for x in ast.walk(loop.test))
+        res.ob("R10.10", f"the loop condition is a comparison of the time variable with final_time ({ast.unparse(loop.test)[:60]})", ok, prog.loc(fi, loop))
+        if not ok:
+            res.violation("R10.10", f"loop-test|{ast.unparse(loop.test)[:60]}", prog.loc(fi, loop), q, f"the time march runs while '{ast.unparse(loop.test)[:100]}', not until the requested final time")
     # resistances handed to the cell filler
     fill = [e for e in f.events if e.kind == "FILL"]
     if len(fill) != 1 or len(fill[0].data) != 2:
@@ -798,6 +829,11 @@ _LOOP_OLD = """        while True:
 """
 
 VARIANTS = [
+    Variant("time march stops when g looks flat and a repeated sample is labelled with the final time (seeded C10_i)", "break",
+            [(RN, "            if time >= final_time - time_step:\n                break\n",
+              "            if time >= final_time - time_step:\n                break\n\n            if len(g) > 2 and g[-1] - g[-2] < 3.0e-5:\n                g.append(g[-1])\n                g_bhw.append(g_bhw[-1])\n                lntts.append(log((final_time - time_step) / self.t_s))\n                break\n")], "R10.10"),
+    Variant("number of steps remembered when the march ends", "benign",
+            [(RN, "            if time >= final_time - time_step:\n                break\n", "            if time >= final_time - time_step:\n                self.n_steps = len(g)\n                break\n")]),
     Variant("slim annulus: the grout cell count is reduced after the cell thickness was computed (seeded C10_g)", "break",
             [(RN, "        # other\n        self.init_temp = 20\n", "        if self.thickness_grout_cell < 1.0e-3:\n            self.num_grout_cells = max(4, int((self.r_borehole - self.r_out_tube) / 1.0e-3))\n            self.num_cells = sum((self.num_fluid_cells, self.num_conv_cells, self.num_pipe_cells, self.num_grout_cells, self.num_soil_cells))\n            self.bh_wall_idx = sum((self.num_fluid_cells, self.num_conv_cells, self.num_pipe_cells, self.num_grout_cells))\n        # other\n        self.init_temp = 20\n")], "R10.1"),
     Variant("slim annulus: the grout cell count is reduced and the cell thickness recomputed", "benign",
